@@ -11,6 +11,8 @@ Families (all enumerated completely, sharded by running index):
  A  structure   all bodies up to weight W over the full statement alphabet, and one
                 weight further over the skeleton alphabet (text / comment leaves)
  B  loops       frame x iterable x use of `loop` x way of leaving the loop x enable_loop mode
+ B3 mutating    a list the loop body appends to / trims while `% for` iterates it, with loop.last /
+                loop.reverse_index read before and after the change (length = the list's current length)
  B2 use sites   where in the `% for` body `loop` is mentioned (expression, control line,
                 <% %>, call argument, tag attribute, call body, ...)
  C  spellings   every indentation combination of the '%' lines of the small skeletons,
@@ -42,6 +44,7 @@ BOUNDS = {
         "A": "all bodies of weight <=3, depth <=3, full alphabet (16 rotating spellings, one per program; weight <=1 under all 16, weight 2 under 4); weight 4, depth <=4 over the skeleton alphabet without def calls",
         "B": "9 frames x 7 iterables x 10 loop uses x 5 exits, enable_loop on; the three other modes on 2 frames; 72 two-deep frame compositions x 1 iterable x 3 uses x 5 exits",
         "B2": "12 use sites x 2 frames x 2 iterables x 3 for-line comments x modes on/page",
+        "B3": "work list changed by the loop body: 7 mutations x 3 reads (last / reverse_index / both) x 3 placements (before / after / both) x 3 initial lengths x 3 frames x modes on/page",
         "C": "skeletons with <=3 '%' lines: all 4^n indentations (LF/CRLF and '% kw' / '%kw' / '%  kw' rotating); 4..6 lines: 16-row cover x LF/CRLF",
         "D": "block shapes x 4 margins x 5 positions x LF/CRLF",
         "E": "except forms x raised x handler count",
@@ -50,6 +53,7 @@ BOUNDS = {
         "A": "all bodies of weight <=4, depth <=3, full alphabet (16 rotating spellings, one per program; weight <=2 under all 16, weight 3 under 4); weight 5, depth <=5 over the skeleton alphabet",
         "B": "9 frames x 7 iterables x 10 loop uses x 5 exits x 4 enable_loop modes; 72 two-deep frame compositions x 7 x 10 x 5, enable_loop on",
         "B2": "12 use sites x 9 frames x 7 iterables x 3 for-line comments x 4 modes",
+        "B3": "work list changed by the loop body: 7 mutations x 3 reads x 3 placements x 3 initial lengths x 8 frames x 4 modes",
         "C": "skeletons with <=4 '%' lines: all 4^n indentations x LF/CRLF ('% kw' / '%kw' / '%  kw' rotating); 5..8 lines: 16-row cover x LF/CRLF",
         "D": "block shapes x 4 margins x 5 positions x LF/CRLF",
         "E": "except forms x raised x handler count",
@@ -77,6 +81,7 @@ FOOTPRINTS = {
 ASSUMPTIONS = [
     "CPython's compile/exec is the reference for Python semantics: the reference is the same statement list printed as a plain function",
     "the reference loop context (35 lines) restates runtime.rst 'The Loop Context': index/first/last/even/odd/reverse_index/cycle/parent; last and reverse_index need len()",
+    "last / reverse_index describe the loop that is executing: they are computed from the length the iterable has at the moment they are read (a Python for over a list sees items appended during the loop)",
     "every character outside directives is output, the terminator of a '%'/'##' line and backslash-newline are not (C01's rule); CRLF text stays CRLF",
     "names assigned in a <% %> block or bound by a control line are locals of the enclosing body/def; defs only read their own locals and never-assigned context names (cross-callable visibility is C04's)",
     "`loop` read where no `% for` of the same callable is active: only 'an exception, not output' is demanded; `loop` inside the else-clause of its own `% for` is not generated (not fixed by the statement)",
@@ -698,6 +703,71 @@ def family_B2(tier, dat):
 
 
 # --------------------------------------------------------------------------
+# family B3: the iterated list changes length while the `% for` over it runs
+
+MUTATIONS = ["none", "append-bounded", "extend-first", "pop-first", "del-front-first", "clear-second", "insert-front-first"]
+LEN_READS = ["last", "rev", "last+rev"]
+READ_PLACES = ["after", "before+after", "before"]
+
+
+def family_B3(tier, dat):
+    """A work list made by the body itself (fresh at every render) is iterated by `% for`; the loop body
+    appends to it / trims it, and reads loop.last / loop.reverse_index before and/or after the change.
+    The equivalent Python `for` keeps going over appended items and stops early on a trimmed list; `loop`
+    has to describe that loop: last == (index == len(list) - 1) with the length the list has when read."""
+    a, b, c = dat["items"]
+    L = lambda *p: ("L", tuple(p))  # noqa
+
+    def mutation(name):
+        if name == "none":
+            return ()
+        lines = {
+            "append-bounded": ("if len(work) < 5:", "    work.append(i + 10)"),
+            "extend-first": ("if loop.index == 0:", "    work.extend([%d, %d])" % (c + 20, c + 21)),
+            "pop-first": ("if loop.index == 0 and len(work) > 1:", "    work.pop()"),
+            "del-front-first": ("if loop.index == 0:", "    del work[0]"),
+            "clear-second": ("if loop.index == 1:", "    del work[:]"),
+            "insert-front-first": ("if loop.index == 0:", "    work.insert(0, %d)" % (c + 30)),
+        }[name]
+        return (("Py", lines, "block"),)
+
+    def read(kind, tag):
+        e = {"last": ["loop.last"], "rev": ["loop.reverse_index"], "last+rev": ["loop.last", "loop.reverse_index"]}[kind]
+        pieces = [("t", tag), ("e", "loop.index")]
+        for x in e:
+            pieces += [("t", ":"), ("e", x)]
+        return L(*pieces)
+
+    inits = [(a,), (a, b), (a, b, c)]
+    if tier == "quick":
+        frames, modes = ["top", "for", "def"], ["on", "page"]
+    else:
+        frames, modes = [f for f in FRAMES if f != "outer"], MODES
+    k = 0
+    for fr in frames:
+        for init in inits:
+            for mut in MUTATIONS:
+                for rd in LEN_READS:
+                    for place in READ_PLACES:
+                        body = (L(("e", "i")),)
+                        if "before" in place:
+                            body += (read(rd, "b"),)
+                        body += mutation(mut)
+                        if "after" in place:
+                            body += (read(rd, "a"),)
+                        S = (
+                            ("Py", ("work = [%s]" % ", ".join(str(v) for v in init),), "inline"),
+                            ("For", "i", "work", body, None, None),
+                            L(("t", "n="), ("e", "len(work)")),
+                        )
+                        d, bdy = frame(fr, S, dat)
+                        prog = {"defs": d, "body": bdy, "page": None}
+                        for mode in modes:
+                            yield ("B3-mutating", prog, mode, [spelling(k % 16)])
+                            k += 1
+
+
+# --------------------------------------------------------------------------
 # family C: spellings
 
 
@@ -890,7 +960,7 @@ def family_E(tier, dat):
                         k += 1
 
 
-FAMILIES = [family_A, family_B, family_B2, family_C, family_D, family_E]
+FAMILIES = [family_A, family_B, family_B2, family_B3, family_C, family_D, family_E]
 
 
 def all_cases(tier, seed):
